@@ -44,9 +44,12 @@
 /* make the discriminating tags concrete (shape concrete, values symbolic):
  * read #0 is the 16 byte base inode (type in bytes 0..1); for an extended
  * directory read #1 is the 24 byte body with inodex_count in bytes 16..17 */
+/* (typed stores, so that symex sees the constants) */
+#include "sqfs/inode.h"
 #define MRC_FIXUP(m, b, n, idx) do { \
-	if ((idx) == 0 && (n) == 16) { (b)[0] = (ITYPE) & 0xFF; (b)[1] = (ITYPE) >> 8; } \
-	if ((ITYPE) == 8 && (idx) == 1 && (n) == 24) { (b)[16] = (NIDX) & 0xFF; (b)[17] = (NIDX) >> 8; } \
+	if ((idx) == 0 && (n) == 16) ((sqfs_inode_t *)(void *)(b))->type = (ITYPE); \
+	if ((ITYPE) == 8 && (idx) == 1 && (n) == 24) \
+		((sqfs_inode_dir_ext_t *)(void *)(b))->inodex_count = (NIDX); \
 	} while (0)
 #include "C10/mr_contract.h"
 #include "lib/util/src/alloc.c"
